@@ -140,7 +140,79 @@ func c06LoginOverlapsChange(c *RunCtx, unit int) {
 	w.LoadState(base)
 }
 
+// c06ConfiguredHasher: the application configured a hasher of its own (Config.Core.Hasher): after a
+// programmatic update and after a recovery the stored value is a hash of THAT hasher which verifies the new
+// password only, the old password no longer logs in and the new one does.
+func c06ConfiguredHasher(c *RunCtx, unit int) {
+	cfg := world.Cfg{Modules: []string{"auth", "recover", "logout", "remember"}, Mount: "/auth", JSON: (unit/16)%2 == 1, RecoverTTL: time.Hour, CustomHasher: true, RecoverLogin: (unit/32)%2 == 1}
+	w, err := world.New(cfg, "c06-hasher")
+	if err != nil {
+		c.Stats.Inconclusive = append(c.Stats.Inconclusive, "world: "+err.Error())
+		return
+	}
+	pid := "hasher@site.test"
+	pws := []string{"0ldPassw0rd!", "Upd4ted!passw", "R3covered!pass"}
+	w.Store.Put(&world.User{PID: pid, Email: pid, Password: w.HashPw(pws[0]), Confirmed: true})
+	logsIn := func(n int, pw string) bool {
+		rec := w.Do(world.NewBrowser(n), world.Req{Method: "POST", Path: w.P("/login"), Form: map[string]string{"email": pid, "password": pw}})
+		return rec.SessOut["uid"] == pid
+	}
+	if !logsIn(1, pws[0]) {
+		c.Stats.Inconclusive = append(c.Stats.Inconclusive, "c06 hasher: seeded password does not log in")
+		return
+	}
+	judge := func(via string, old, now string, n int) bool {
+		c.Stats.Evaluations++
+		c.Stats.Count("changes-under-a-configured-hasher:" + via)
+		u := w.Store.Peek(pid)
+		bad := ""
+		switch {
+		case u == nil:
+			bad = "the account vanished"
+		case u.Password == now || strings.Contains(u.Password, now):
+			bad = "the stored value contains the plaintext"
+		case !w.VerifyPw(u.Password, now):
+			bad = "the stored value is not a hash of the configured hasher that verifies the new password"
+		case w.VerifyPw(u.Password, old):
+			bad = "the stored hash still verifies the old password"
+		case logsIn(n, old):
+			bad = "the old password still logs in"
+		case !logsIn(n+1, now):
+			bad = "the new password does not log in"
+		}
+		if bad != "" {
+			v := vio("C06", "configured-hasher|"+via, "with an application-supplied Config.Core.Hasher, after a password change via %s: %s", via, bad)
+			c.Stats.Violations = append(c.Stats.Violations, sim.VioRec{Violation: *v, Index: unit, Cfg: cfg.String(), History: []string{"change via " + via}})
+			return false
+		}
+		return true
+	}
+	if rec := w.AdminUpdatePassword(pid, pws[1]); rec.AdminErr != "" {
+		c.Stats.Inconclusive = append(c.Stats.Inconclusive, "c06 hasher: UpdatePassword failed: "+rec.AdminErr)
+		return
+	}
+	if !judge("update", pws[0], pws[1], 10) {
+		return
+	}
+	w.Do(world.NewBrowser(20), world.Req{Method: "POST", Path: w.P("/recover"), Form: map[string]string{"email": pid}})
+	tok := ""
+	if n := len(w.Mails); n > 0 {
+		if m := c06MailTok.FindStringSubmatch(w.Mails[n-1].Email.TextBody); m != nil {
+			tok, _ = url.QueryUnescape(m[1])
+		}
+	}
+	if tok == "" {
+		c.Stats.Inconclusive = append(c.Stats.Inconclusive, "c06 hasher: no recovery mail")
+		return
+	}
+	w.Do(world.NewBrowser(21), world.Req{Method: "POST", Path: w.P("/recover/end"), Form: map[string]string{"token": tok, "password": pws[2], "confirm_password": pws[2]}})
+	judge("recover", pws[1], pws[2], 30)
+}
+
 func c06Unit(c *RunCtx, unit int) {
+	if unit%8 == 6 {
+		c06ConfiguredHasher(c, unit)
+	}
 	if unit%8 == 4 {
 		c06LoginOverlapsChange(c, unit)
 	}
@@ -477,11 +549,11 @@ func c06Unit(c *RunCtx, unit int) {
 func init() {
 	register(&Check{
 		ID: "C06", Level: "exploration",
-		Rule:  "per unit two rounds: 0-3 remember cookies of the target on as many browsers plus one of a bystander (when the remember module is loaded), then a password change by recovery link or programmatic update (in some units with the remember-token purge failing: a change that still reports success is held to every clause; in others with a login by the OLD password running to completion between two of the change's backend calls) with old/new pairs from {fresh, identical, 1 byte, 71/72/73 bytes, non-ASCII, NUL-containing, policy-violating}; afterwards real requests: every earlier cookie presented from a session-less browser, the bystander's cookie, the spent recovery token again, login with the old and the new password on a clean browser, login of the bystander; plus direct inspection of the stored hash (bcrypt shape, verifies new, not old unless bcrypt-equivalent) and of the diff (only the target's record/token rows). Plus, in every 40th unit, a burst on a real instance: 16 accounts change their passwords through Authboss.UpdatePassword at the same moment, 60 rounds; after each round every stored hash verifies its own account's new password and none of its neighbours'. Plus, in every 8th unit, a login with the OLD password suspended before each of its backend calls while the recovery of the same account runs to completion (no module that saves during a login loaded; in half of these units the configured bcrypt cost is above the stored hashes' cost): afterwards the stored hash verifies the new password only, the old one does not log in, the new one does. distinct_nontrivial = distinct (route, new-password class, #cookies, remember loaded, login-after-recovery, mode, applied) signatures.",
+		Rule:  "per unit two rounds: 0-3 remember cookies of the target on as many browsers plus one of a bystander (when the remember module is loaded), then a password change by recovery link or programmatic update (in some units with the remember-token purge failing: a change that still reports success is held to every clause; in others with a login by the OLD password running to completion between two of the change's backend calls) with old/new pairs from {fresh, identical, 1 byte, 71/72/73 bytes, non-ASCII, NUL-containing, policy-violating}; afterwards real requests: every earlier cookie presented from a session-less browser, the bystander's cookie, the spent recovery token again, login with the old and the new password on a clean browser, login of the bystander; plus direct inspection of the stored hash (bcrypt shape, verifies new, not old unless bcrypt-equivalent) and of the diff (only the target's record/token rows). Plus, in every 40th unit, a burst on a real instance: 16 accounts change their passwords through Authboss.UpdatePassword at the same moment, 60 rounds; after each round every stored hash verifies its own account's new password and none of its neighbours'. Plus, in every 8th unit, a login with the OLD password suspended before each of its backend calls while the recovery of the same account runs to completion (no module that saves during a login loaded; in half of these units the configured bcrypt cost is above the stored hashes' cost): afterwards the stored hash verifies the new password only, the old one does not log in, the new one does. Every 8th unit runs the changes (programmatic update, recovery) on an instance with an application-supplied hasher: the stored value verifies under THAT hasher, for the new password only. distinct_nontrivial = distinct (route, new-password class, #cookies, remember loaded, login-after-recovery, mode, applied) signatures.",
 		Units: func(t string) int { return tierN(t, 320, 15000) },
 		Run:   c06Unit,
 		Floors: func(t string) map[string]int {
-			return map[string]int{"change-applied:recover": 40, "change-applied:update": 20, "old-cookie-presented": 40, "bystander-cookie-ok": 30, "old-password-tried": 50, "token-replayed": 30, "change-refused:long73": 5, "hashes-checked-after-concurrent-changes": 1000, "old-password-login-overlapping-the-change": 20}
+			return map[string]int{"change-applied:recover": 40, "change-applied:update": 20, "old-cookie-presented": 40, "bystander-cookie-ok": 30, "old-password-tried": 50, "token-replayed": 30, "change-refused:long73": 5, "hashes-checked-after-concurrent-changes": 1000, "old-password-login-overlapping-the-change": 20, "changes-under-a-configured-hasher:update": 20, "changes-under-a-configured-hasher:recover": 20}
 		},
 		Assumptions: []string{"programmatic UpdatePassword has no policy of its own: only bcrypt's 72-byte limit refuses a value there"},
 	})
